@@ -24,7 +24,7 @@ import tempfile
 import time
 
 VERIF = os.path.dirname(os.path.abspath(__file__))
-BUILD = os.path.join(VERIF, ".build")
+BUILD = os.environ.get("VERIF_BUILD", os.path.join(VERIF, ".build"))
 PLAIN = os.path.join(BUILD, "bin", "verifh.test")
 RACE = os.path.join(BUILD, "bin", "verifh.race.test")
 NCPU = os.cpu_count() or 4
@@ -282,6 +282,7 @@ def main():
     ap.add_argument("--tier", default=os.environ.get("VERIF_TIER", "quick"))
     ap.add_argument("--replay")
     ap.add_argument("--keep", action="store_true")
+    ap.add_argument("--no-evidence", action="store_true", help="do not rewrite evidence/<id>.json (used when checking a scratch copy of the repository)")
     args = ap.parse_args()
     prop = args.prop
     if prop not in PROPS:
@@ -305,7 +306,7 @@ def main():
 
     workdir = tempfile.mkdtemp(prefix="verif-%s-" % prop, dir=os.environ.get("VERIF_WORKROOT", "/tmp"))
     try:
-        rc = supervise(prop, cfg, tier, seed, workdir, replay, t0)
+        rc = supervise(prop, cfg, tier, seed, workdir, replay, t0, write_evidence=not args.no_evidence)
     finally:
         if not args.keep:
             shutil.rmtree(workdir, ignore_errors=True)
@@ -314,7 +315,7 @@ def main():
     sys.exit(rc)
 
 
-def supervise(prop, cfg, tier, seed, workdir, replay, t0):
+def supervise(prop, cfg, tier, seed, workdir, replay, t0, write_evidence=True):
     known = load_known()
     children = run_children(prop, cfg, tier, seed, workdir, replay)
 
@@ -413,7 +414,7 @@ def supervise(prop, cfg, tier, seed, workdir, replay, t0):
     )
     ev = dict(property_id=prop, tier=tier, seed=seed, level=cfg["level"], coverage=coverage,
               assumptions=ASSUMPTIONS_COMMON + cfg.get("assumptions", []), wall_s=round(wall, 2), violations=len(fresh))
-    if replay is None:
+    if replay is None and write_evidence:
         os.makedirs(os.path.join(VERIF, "evidence"), exist_ok=True)
         tmp = os.path.join(VERIF, "evidence", prop + ".json.tmp")
         with open(tmp, "w") as f:
